@@ -1,6 +1,9 @@
 #!/usr/bin/env python3
-"""Print the DESIGN.md table of seeded changes from seeded/*/meta.json and seeded/RESULTS.json."""
-import json, os, glob
+"""Print the DESIGN.md table of seeded changes from seeded/*/meta.json and seeded/RESULTS.json;
+with --update-design, put it between the SEEDED-TABLE markers of DESIGN.md."""
+import json, os, glob, sys, io
+out = io.StringIO(); _p = print
+def print(*a): _p(*a, file=out)
 V = os.path.dirname(os.path.dirname(os.path.abspath(__file__)))
 res = json.load(open(V + '/seeded/RESULTS.json'))
 print('| id | change (first words of the author\'s summary) | reported by | failing units |')
@@ -19,3 +22,12 @@ for d in sorted(glob.glob(V + '/seeded/C*')):
     summ = ' '.join(meta.get('summary', '').split())[:170].replace('|', '/')
     print('| %s | %s | %s | %s |' % (i, summ, ', '.join(by) if by else '**missed**', ', '.join(units[:4]) + (' ...' if len(units) > 4 else '')))
 print('\n%d of %d reported.' % (det, n))
+
+txt = out.getvalue()
+if '--update-design' in sys.argv:
+    p = V + '/DESIGN.md'; d = open(p).read()
+    b = d.index('<!-- SEEDED-TABLE-BEGIN'); b = d.index('\n', b) + 1; e = d.index('<!-- SEEDED-TABLE-END')
+    open(p, 'w').write(d[:b] + txt + d[e:])
+    _p('DESIGN.md updated:', txt.strip().splitlines()[-1])
+else:
+    _p(txt, end='')
